@@ -286,9 +286,10 @@ def _only(res, prefixes, invert=False):
     return dict(res, mismatches=keep, n_mismatch=len(keep))
 
 
-DOC_RULE = ("documents = JSIGHT + every sequence of up to 3 distinct blocks (C02 quick: 22 765 documents; C02 thorough: up to 4; as input generator for other properties: up to 2 quick / 3 thorough) out of 29 block templates (INFO, SERVER, 2 TAGs, 3 TYPEs incl. a reference and a regex, ENUM, "
-            "URL groups with methods / query / request / responses / headers / path variables, explicit and implicit contexts, stand-alone methods, JSON-RPC URL, Tags at URL and method level, "
-            "MACRO + PASTE, a similar-path block); the specification predicts accept + catalog skeleton, or error class + line. ")
+DOC_RULE = ("documents = JSIGHT + every sequence of up to 2 (quick) / 3 (thorough) distinct blocks out of about 60 block templates, with a prelude of dependency blocks (tags, types, enum, macro) "
+            "placed before, after or not at all (INFO, SERVER, TAGs, TYPEs incl. references, unions, allOf, regex, ENUM, URL groups with methods / query / request / responses / headers / path variables, "
+            "explicit and implicit contexts, stand-alone methods of every kind, JSON-RPC URLs, Tags at URL and method level, MACRO + PASTE incl. a macro with a Path pasted twice, faulty blocks: "
+            "similar / duplicated / blank paths, undefined automatic tags); the specification predicts accept + catalog skeleton, or error class + line. ")
 
 
 def run_C02(ctx):
